@@ -74,6 +74,8 @@ def cases(draw):
         names = [r["name"] for r in g["rules"]]
         uc = draw(st.lists(st.sampled_from(names), max_size=2, unique=True)) if draw(st.integers(0, 9)) < 3 else []
         return {"kind": "grammar", "g": g, "cfg": cfg, "inputs": texts, "userclasses": sorted(uc),
+                # user classes may be container-like: instances that are falsy (__len__ == 0 / __bool__ False)
+                "falsy": draw(st.sampled_from([None, None, "len", "bool"])) if uc else None,
                 "queries": draw(st.lists(queries(names), min_size=3, max_size=3))}
     return {"kind": "classes", "model": draw(M.class_models(depth=2, max_top=3)),
             "queries": draw(st.lists(queries(["Package", "Cls", "Attr", "Model"]), min_size=3, max_size=3))}
@@ -241,12 +243,19 @@ def evaluate(case):
                 for k, v in kw.items():
                     setattr(self, k, v)
 
-            classes.append(type(n, (object,), {"__init__": init}))
+            ns = {"__init__": init}
+            if case.get("falsy") == "len":
+                ns["__len__"] = lambda self: 0
+            elif case.get("falsy") == "bool":
+                ns["__bool__"] = lambda self: False
+            classes.append(type(n, (object,), ns))
     try:
         mm = c01.make_metamodel(g, cfg, classes=classes)
     except TextXError as e:
         return out.add("grammar_rejected", f"{gtext!r}: {e}")
     out.cls("kind:grammar", "userclasses" if classes else "generic_classes")
+    if classes and case.get("falsy"):
+        out.cls("falsy_user_class_instances")
     out.sample = {"grammar": gtext, "inputs": case["inputs"][:2], "queries": case["queries"]}
     nt = False
     for text in case["inputs"]:
